@@ -1173,7 +1173,7 @@ fn render_char(r: &mut Rng, c: char, out: &mut Vec<u8>) {
     let short = match c { '"' => Some('"'), '\\' => Some('\\'), '/' => Some('/'), '\u{8}' => Some('b'), '\u{c}' => Some('f'), '\n' => Some('n'), '\r' => Some('r'), '\t' => Some('t'), _ => None };
     if style == 1 { if let Some(s) = short { out.push(b'\\'); out.push(s as u8); return } }
     if style == 1 || style == 2 {
-        // KNOWN-FINDING candidate: \u escapes of the bit-16 class are written raw instead (see KF_SURROGATE_BIT16)
+        // F26 (fixed): while KF_SURROGATE_BIT16 was true, \u escapes of the bit-16 class were written raw instead
         if !(bit16_class && KF_SURROGATE_BIT16) {
             let upper = r.bool();
             let mut u = |x: u32, out: &mut Vec<u8>| { let s = if upper { format!("\\u{x:04X}") } else { format!("\\u{x:04x}") }; out.extend_from_slice(s.as_bytes()) };
@@ -1237,7 +1237,7 @@ fn render_doc(r: &mut Rng, sc: &Sc, v: &V, out: &mut Vec<u8>) {
     }
 }
 
-/// KNOWN-FINDING candidate filter (KF_SURROGATE_BIT16): does the string body contain a \u-escaped surrogate pair
+/// F26 (fixed) filter, active only while KF_SURROGATE_BIT16 is true: does the string body contain a \u-escaped surrogate pair
 /// whose high surrogate has bit 6 of (high - 0xD800) set?  (adjacent atoms can form such a pair by accident)
 fn has_kf_pair(body: &[u8]) -> bool {
     let hex4 = |b: &[u8]| -> Option<u32> { if b.len() < 4 { return None } let mut v = 0; for c in &b[..4] { v = v * 16 + (*c as char).to_digit(16)? } Some(v) };
@@ -1393,12 +1393,12 @@ pub fn generate(tier: &str, r: &mut Rng, emit: &mut dyn FnMut(Case)) {
                 }
                 5 | 6 | 7 => { // surrogate pair of a scalar value >= U+10000
                     let c = loop { let c = match r.below(3) { 0 => *r.pick(&[0x10000u32, 0x1F600, 0x10FFFF, 0x1FFFF, 0x30000, 0x3FFFF, 0xF0000, 0x100000]), _ => 0x10000 + (r.next() % 0x100000) as u32 };
-                        // KNOWN-FINDING candidate: bit-16 class excluded (KF_SURROGATE_BIT16)
+                        // F26 (fixed): the bit-16 class was excluded while KF_SURROGATE_BIT16 was true
                         if !(KF_SURROGATE_BIT16 && ((c - 0x10000) >> 16) & 1 == 1) { break c } };
                     let v = c - 0x10000; let s = format!("\\u{:04X}\\u{:04x}", 0xD800 + (v >> 10), 0xDC00 + (v & 0x3FF)); body.extend_from_slice(s.as_bytes()); kinds.insert("u-pair");
                 }
                 8 => { let hi = 0xD800 + r.below(0x400) as u32;
-                    // KNOWN-FINDING candidate: when the second escape happens to be a low surrogate the pair is valid; bit-16 class excluded
+                    // F26 (fixed): when the second escape happens to be a low surrogate the pair is valid; bit-16 class was excluded while the flag was true
                     let second = loop { let x = r.below(0x10000) as u32; if !(KF_SURROGATE_BIT16 && (0xDC00..0xE000).contains(&x) && (hi - 0xD800) & 0x40 != 0) { break x } };
                     let s = match r.below(4) { 0 => format!("\\u{hi:04X}"), 1 => format!("\\u{hi:04X}x"), 2 => format!("\\u{hi:04X}\\n"), _ => format!("\\u{hi:04X}\\u{second:04X}") }; body.extend_from_slice(s.as_bytes()); kinds.insert("lone-high"); }
                 9 => { let lo = 0xDC00 + r.below(0x400) as u32; let s = if r.bool() { format!("\\u{lo:04X}") } else { format!("\\u{lo:04X}\\u{:04X}", 0xD800 + r.below(0x400)) }; body.extend_from_slice(s.as_bytes()); kinds.insert("lone-low"); }
